@@ -196,6 +196,16 @@ for v in ck.violations:
             v['replayed'] = rep.get('replay1_ok') is False or rep.get('replay1_matches') is False
         else:
             v['replayed'] = rep.get('replay2_ok') is False or rep.get('new_record_recovered') is False or rep.get('replay2_prefix_matches') is False
+    elif w.get('vote_outcome'):
+        # an all-Yes vote set ends Aborting only through the cross-shard conflict branch; Prepared otherwise
+        tries = [{'vote_kind': w['vote_kind'], 'conflict': c_} for c_ in ((True, False) if w['vote_kind'] == PV_ALL['Yes'] else (False,))]
+        v['replayed'] = False
+        for t_ in tries:
+            rep = Replay.call({'op': 'coordinator_vote_log', **t_})
+            v['native'] = rep
+            if rep.get('violates'):
+                v['replayed'] = True
+                break
     elif 'shape' in w:
         rep = Replay.call({'op': 'tx_from_entries', **w})
         v['native'] = rep
